@@ -124,6 +124,18 @@ mod __verif_c36 {
         fast(2, 2);
     }
 
+    // @harness tiers=thorough timeout=2400
+    // @encodes physical::operators::filter::classify_like, physical::operators::filter::LikeKind::matches
+    // @bounds fast path with patterns of length 3 (`a%b`, `%a%`, `ab%`, `%ab`, `a_%` ...: every classified shape incl. Contains and wildcard-in-the-middle) against texts of length 1 and 2 (shorter than, and overlapping, prefix + suffix)
+    // @oracle as like_fast_path_short_texts
+    // @unwindset {closure#0}}>::{closure#0}}>#0:4 ops::ControlFlow>#0:4 memchr::memchr_naive#0:4 memcmp#0:4 __verif_c36::gen#0:4 __verif_c36::like_ref#0:8 __verif_c36::like_ref#1:4 filter::like_match#0:8
+    #[kani::proof]
+    #[kani::unwind(2)]
+    fn like_fast_path_pattern3() {
+        fast(1, 3);
+        fast(2, 3);
+    }
+
     // @harness tiers=experimental timeout=2400
     // @encodes physical::operators::filter::like_match, physical::operators::filter::classify_like, physical::operators::filter::LikeKind::matches
     // @bounds general matcher: patterns of length 3 against texts of length 0..=2; fast path: text 3 x pattern 3
